@@ -187,7 +187,7 @@ def run(tier: str, seed: int) -> int:
               "shuffled mtimes, and regenerated over an existing generation; both strategies, graphqlschema with py and graphql targets; distinct = distinct feature-set")
     r.assumptions = ["sha256 equality of every produced file is byte identity"]
     r.floors = {"runs": 200, "comparisons": 100}
-    n = 250 if tier == "thorough" else 26
+    n = 120 if tier == "thorough" else 26
     cases = []
     for i in range(n):
         strategy = "client" if i % 5 != 4 else "graphqlschema"
